@@ -2,7 +2,8 @@
    arguments, the rendering text of every node, a title text and a join
    string.  For every style the model answers Tree.format_iter for the five
    title settings, Node.format_iter for every node as start node with
-   add_self on/off, and format(join=...) for the tree and every node. *)
+   add_self on/off, format(join=...) for the tree and every node, and
+   Node.format_iter called on the system root itself. *)
 From Coq Require Import List ZArith Bool Arith.
 From NT Require Import Sx Rose.
 From NT Require Export Format.
@@ -45,6 +46,8 @@ Definition run16_style (c : case16) (a : style_arg) : sx :=
              (ctxs_l [] f));
       sx_res sx_text (tree_format CONNECTORS DEFAULT_CONNECTOR_STYLE rend trepr f a TiDefault (c_join c));
       L (map (fun x => sx_res sx_text (format CONNECTORS DEFAULT_CONNECTOR_STYLE rend f (SNode x) a true (c_join c)))
-             (ctxs_l [] f)) ].
+             (ctxs_l [] f));
+      (* tree.system_root.format_iter(add_self=True / False) *)
+      L [ sx_res sx_lines (nfi SRoot a true); sx_res sx_lines (nfi SRoot a false) ] ].
 
 Definition run16 (c : case16) : sx := L (map (run16_style c) (c_styles c)).
